@@ -340,3 +340,30 @@ def value_passthrough(ctx, rule, name, derived=(), floor=3):
                     key += ' #%d' % (k2 + 1)
                 ctx.check(v == own, rule, key, '`%s` is handed on unchanged' % name, 'the value passed for `%s` is %s' % (name, show(v, an.names)[:160]), ctx.where(b, c.span))
     ctx.floor('call sites handing `%s` on' % name, n, floor)
+
+
+def step_protocol(ctx, rule, fid, before):
+    """One simulation step computes its demand from THIS step's inputs: inside `fid` each (a, b) of `before` — method-name suffixes —
+    must be called in that order on every path (the call of a dominates the call of b): the limits and the resistance are refreshed
+    before the required power is derived from them, and the powertrain is solved for the power that was just derived.  A swapped
+    pair leaves every relation of the callee intact and feeds it the previous step's values."""
+    from sa.cfg import CFG
+    prog = ctx.prog
+    b = prog.by_id.get(fid)
+    if b is None:
+        ctx.unproved(rule, fid + '|step protocol', 'anchor not found'); return
+    cfg = CFG(b)
+    sites = {}
+    for bn, t in cfg.call_sites():
+        for x in prog.resolve(t.callee):
+            sites.setdefault(x.fid.split('::')[-1], []).append(bn)
+        nm = re.sub(r'::<.*?>', '', t.callee).split('::')[-1] if False else None
+    import re as _re
+    for bn, t in cfg.call_sites():
+        last = _re.sub(r'::<.*$', '', t.callee).split('::')[-1]
+        sites.setdefault(last, []).append(bn)
+    for a, c in before:
+        sa_, sc_ = sorted(set(sites.get(a, []))), sorted(set(sites.get(c, [])))
+        ok = len(sa_) >= 1 and len(sc_) >= 1 and all(any(cfg.dominates(x, y) and x != y for x in sa_) for y in sc_)
+        ctx.check(ok, rule, '%s|%s before %s' % (fid, a, c), 'every call of %s is preceded, on every path, by a call of %s' % (c, a),
+                  '%s is not called before %s on every path (sites: %s / %s)' % (a, c, sa_, sc_), ctx.where(b))
